@@ -62,6 +62,27 @@
 #include <inttypes.h>
 #endif
 
+/* Read back the value of a scalar field code as gd_alter_entry() understood it:
+ * either a CONST field, or one element of a CARRAY written "code<index>" */
+static inline int gd_cxx_get_scalar(DIRFILE *D, const char *code,
+    gd_type_t type, void *data)
+{
+  const char *ptr = strchr(code, '<');
+  char *name;
+  int r;
+
+  if (ptr == NULL)
+    return gd_get_constant(D, code, type, data);
+
+  name = strdup(code);
+  if (name == NULL)
+    return gd_get_constant(D, code, type, data);
+  name[ptr - code] = '\0';
+  r = gd_get_carray_slice(D, name, (unsigned int)atoi(ptr + 1), 1, type, data);
+  free(name);
+  return r;
+}
+
 /* debugging macros */
 #ifdef GETDATA_DEBUG
 extern "C" const char* gd_colnil(void);
